@@ -114,6 +114,28 @@ def judge(ctx, text, line2region, origin, optsets=None, rng=None, keyname=None):
         for ln in lines - set(line2region):
             viol('line%d' % ln, opts, 'finding on a line that holds no site: %d' % ln, res)
 
+    # ---- (2b) coverage with -U only (still "without -D"): every region that does not require an undefined macro
+    # to be defined must be analysed; regions requiring it are dead under -U and exempt
+    if rng is not None and macros:
+        for _ in range(2):
+            us = rng.sample(macros, 1 if len(macros) < 2 or rng.random() < 0.7 else 2)
+            opts = ['-U' + u for u in us] + [rng.choice(['--force', '--max-configs=%d' % (nguards + 2), '--max-configs=100'])]
+            cfgs, lines, res, other = observe(d, fname, opts)
+            ctx.ev()
+            if bad(res):
+                continue
+            ctx.count('runs', 'coverage under -U')
+            for r in regs:
+                if any(r.guard.get(u) is True for u in us):
+                    continue
+                if r.line in lines:
+                    ctx.count('hist', 'region_findings_observed_under_U')
+                    armed += 1
+                else:
+                    viol(r.rid, opts, 'region %d (line %d, guard %s) is never analysed under %s although it does not require '
+                         'an undefined macro and no -D is given; configurations analysed: %r'
+                         % (r.rid, r.line, _g(r.guard), ' '.join(opts), cfgs), res)
+
     # ---- (1) -D / -U
     if optsets is None:
         optsets = []
